@@ -254,6 +254,7 @@ Section Eval.
     match v with
     | VInt z | VLong z => Some z
     | VBit b => Some (b2z b)
+    | VFloat f => Some (f_trunc O f)          (* "index must be numeric": a float index is truncated *)
     | _ => None
     end.
 
